@@ -61,6 +61,35 @@ CheckTenant(e, C, i) ==
                     got == {e.files[k].doc : k \in 1..Len(e.files)}
                 IN got # exp => Reject(i, "c23:files", [missing |-> exp \ got, extra |-> got \ exp]))
 
+\* C18: shard pre-selection and filter rewriting (selectRepoSet).  A shard that is dropped must
+\* have an empty answer for the query; on every kept shard the rewritten query must select the
+\* same documents as the original one.
+CheckSelect(e, C, i) ==
+  LET dropped == SeqToSet(e.all) \ SeqToSet(e.kept)
+      lost == {s \in dropped : S!Answer(e.q, C, "shard", s) # {}}
+      changed == {s \in SeqToSet(e.kept) : S!Answer(e.rq, C, "shard", s) # S!Answer(e.q, C, "shard", s)}
+  IN /\ (lost # {} => Reject(i, "c18:dropped-shard-has-results", [shards |-> lost]))
+     /\ (changed # {} => Reject(i, "c18:rewrite-changes-answer", [shards |-> changed]))
+
+\* Listing: each repository once; a listed repository has a live matching document (or the query
+\* is TRUE); statistics are summed over the shards holding the repository.
+CheckList(e, C, i) ==
+  LET names == [k \in 1..Len(e.repos) |-> e.repos[k].name]
+      live == {k \in 1..Len(C.repos) : ~C.repos[k].tomb}
+      expected == IF e.q.t = "const" /\ e.q.b THEN {C.repos[k].name : k \in live}
+                  ELSE S!ListedNames(e.q, C, "dir")
+      \* shards (repository entries) of a name that contribute to the listing
+      entries(n) == {k \in live : C.repos[k].name = n /\
+                        ((e.q.t = "const" /\ e.q.b) \/
+                         \E j \in 1..Len(C.docs) : C.docs[j].repo = k /\ S!Live(C, C.docs[j]) /\ S!Holds(e.q, j, C, "dir"))}
+      docsOf(n) == Cardinality({j \in 1..Len(C.docs) : C.docs[j].repo \in entries(n)})
+      wrongStats == {k \in 1..Len(e.repos) : e.repos[k].name \in expected /\
+                        (e.repos[k].shards # Cardinality(entries(e.repos[k].name)) \/ e.repos[k].documents # docsOf(e.repos[k].name))}
+  IN IF e.outcome # "ok" THEN Reject(i, "c18:list:outcome", [names |-> {}])
+     ELSE /\ (Cardinality(SeqToSet(names)) # Len(names) => Reject(i, "c18:list:duplicate", [names |-> SeqToSet(names)]))
+          /\ (SeqToSet(names) # expected => Reject(i, "c18:list:repos", [missing |-> expected \ SeqToSet(names), extra |-> SeqToSet(names) \ expected]))
+          /\ (wrongStats # {} => Reject(i, "c18:list:stats", [which |-> wrongStats]))
+
 \* Every event is evaluated in an ASSUME, i.e. at constant level after TLC has processed the
 \* constant definitions: TLC caches LET definitions only outside actions (measured: 100x), and
 \* the oracle relies on that.  The state machine below only reports that the whole trace was
@@ -80,6 +109,8 @@ VerdictAt(i) == LET e == Trace[i]
                                                /\ (e.outcome = "ok" => G!CheckGeometry(e, C, i)))
                      [] e.ev = "rank"    -> ("c29" \in Check => RL!CheckRank(e, C, i))
                      [] e.ev = "tenant"  -> ("c23" \in Check => CheckTenant(e, C, i))
+                     [] e.ev = "select"  -> ("c18" \in Check => CheckSelect(e, C, i))
+                     [] e.ev = "list"    -> ("c18" \in Check => CheckList(e, C, i))
                      [] OTHER -> TRUE
 ASSUME \A i \in 1..Len(Trace) : VerdictAt(i)
 
